@@ -73,6 +73,102 @@ BUILT = {
             "the schema on its own. Behaviour under the upb vs pure-Python back-ends is not decided.",
             "proto/*.proto is the schema the _pb2 modules are generated from (they are build "
             "products absent from the tree).", "4/C02"),
+    "C05": ("index-key/notify analysis of the notify-parent descriptor, CFG pairing of index "
+            "maintenance in the membership primitives, term normalisation of the 30 lookup methods",
+            "Structural: every stored attribute the block-index key reads is a notify-parent "
+            "attribute of the right parent; the descriptor discards-before/adds-after the store on "
+            "every path; attach/detach maintain the index; lookups search the fresh tree with the "
+            "helper of the same kind; code/data variants are exact isinstance filters; scopes "
+            "compose by same-name unions; closed-interval bias agrees between builders and "
+            "consumers. The boundary arithmetic inside the helpers is NOT decided.",
+            "intervaltree semantics; set semantics of tree.overlap.", "4/C05"),
+    "C06": ("same as C05 for the per-section interval index, plus guard agreement of the two "
+            "extent properties",
+            "Structural: ByteInterval.address/size notify the section; membership maintains the "
+            "section index; byte_intervals_on/at and sections_on/at delegate with the right "
+            "selector; Section.address and Section.size use the index under the same "
+            "non-empty-and-complete guard. Boundary arithmetic not decided.",
+            "intervaltree semantics (node identity is part of Interval identity).", "4/C06"),
+    "C09": ("schema-typed reference-site analysis with CFG dominance of kind checks; "
+            "producer-before-consumer over the decode stage lists via call-graph closure",
+            "Structural: each of the 8 reference fields is resolved only by UUID(bytes=..) -> the "
+            "loading IR's get_by_uuid -> isinstance check whose failing outcome raises "
+            "DeserializationError on every path; Node._from_protobuf reuses only same-class "
+            "cached nodes; decoders register what they return; stages consuming a kind follow the "
+            "stages producing it; lazy AuxData is bound to the loading IR.",
+            "UUIDs unique per kind in the file.", "4/C09"),
+    "C10": ("index-key/notify analysis for the symbol indexes, add/discard mirror comparison, "
+            "who-may-write, CFG pairing in the symbol-set primitives",
+            "Structural: name and payload are notify-parent attributes of the module; value/referent "
+            "setters store only the payload; _index_add/_index_discard mirror each other and are the "
+            "only writers; the node-set primitives call them on every path; lookups read the right "
+            "index of the right module with the right key.",
+            "builtin set/dict semantics.", "4/C10"),
+    "C11": ("who-may-write on the edge multigraph, CFG dominance of the add guard and discard key, "
+            "abc mixin routing, sibling agreement of adjacency views",
+            "Structural local guards: one multigraph edge per element, added only when absent, "
+            "removed by the key found for exactly that (source, target, label), labels compared by "
+            "==, adjacency views use the matching networkx view in (s, t, l) order, block edge "
+            "properties delegate correctly. The observable state after arbitrary mixed sequences "
+            "and networkx's semantics are not decided.",
+            "networkx MultiDiGraph semantics.", "4/C11"),
+    "C12": ("effect analysis over a type-resolved call-graph closure of every lookup entry point; "
+            "CFG state-machine analysis of LazyIntervalTree.get",
+            "Structural: lookups write nothing outside the lazy wrapper; clients only add/discard/"
+            "get and never store a tree; add/discard capture the interval at edit time; get() "
+            "rebuilds or replays all events in order and clears the queue on every path; rebuild "
+            "and replay index the same collection with the same notifying key. Equivalence of "
+            "replay and rebuild as a function of event content rests on intervaltree set semantics.",
+            "intervaltree add/discard are set operations.", "4/C12"),
+    "C13": ("who-may-mutate the sorted store, alias-safety ordering on the setter's CFG, linear "
+            "forms of the irange bounds and step filter, term comparison of scope composition",
+            "Structural: the store is a SortedDict mutated only by __setitem__/__delitem__; "
+            "whole-mapping assignment copies before clearing; the range lookups iterate "
+            "[start-address, stop-address) half-open with the step filter and yield (self, i, "
+            "expr); Section/Module/IR compose the same lookup. Range arithmetic beyond these shape "
+            "facts is not decided.",
+            "sortedcontainers.SortedDict.irange semantics.", "4/C13"),
+    "C14": ("typestate (who-may-write + paired writes on the CFG) over AuxData's raw-bytes/value/"
+            "type-name fields; dominance of the raw-reuse assignment by both guards; shape of the "
+            "unknown-codec fallback",
+            "Structural: raw bytes are dropped whenever the value is read or replaced; saved bytes "
+            "are the loaded ones only while held and under an unchanged type name, otherwise the "
+            "current value is encoded through the data property under the current name; unknown "
+            "codecs at any depth yield UnknownData of the complete input, written back verbatim.",
+            "protobuf bytes fidelity.", "4/C14"),
+    "C15": ("regex AST analysis (re._parser) of the tokeniser, exception-discipline scan, CFG "
+            "dominance of destructuring guards",
+            "REDUCED CLAIM. Decided: the tokeniser partitions every input into maximal name runs "
+            "and the three delimiters without dropping characters; only TypeNameError is raised "
+            "deliberately and it cannot be intercepted or translated; every destructuring is "
+            "guarded. NOT decided: that exactly the grammar's language is accepted and the tree is "
+            "the grammar's tree (acceptance/rejection logic of the recursive parser), and "
+            "RecursionError on very long sibling lists.",
+            "re.findall semantics.", "4/C15"),
+    "C17": ("CFG dominance of header/version/size checks over what they protect; exception-"
+            "handler scan over the load path; re-use of the reference/stage/ownership rules",
+            "Structural: magic and version comparisons (unconditional, raising ValueError) dominate "
+            "the parse; the message version check dominates construction; every reference is "
+            "kind-checked; decoders build only through the public primitives; validating "
+            "constructors/enums/UUID conversions are on the decode path; oneofs are exhaustive; no "
+            "decoder swallows an exception. Termination, ParseFromString on corrupt bytes and "
+            "'every saved file is accepted' are not decided.",
+            "protobuf runtime rejects malformed wire data by raising.", "4/C17"),
+    "C18": ("compared-attribute extraction from every deep_eq chain vs constructor state; class-"
+            "hierarchy exactness of isinstance guards; zip/sort/length-test shape analysis",
+            "Structural: each concrete class's deep_eq chain compares every constructor-declared "
+            "attribute, pairs the same attribute on both sides, has an isinstance guard no other "
+            "concrete class satisfies, zips children sorted by one key after a length test, and "
+            "treats optional referents symmetrically.",
+            "sorted/zip semantics; UUIDs totally ordered.", "4/C18"),
+    "C19": ("effect obligations on the assignment paths of size/initialized_size; operand-shape "
+            "(linear form) analysis of the block views",
+            "Structural: initialized_size is len(contents) with a pad/truncate setter and no shadow "
+            "field; the constructor validates before assigning and copies the buffer; the size "
+            "setter truncates contents (as doc/general/ByteInterval.md requires) and still notifies "
+            "the section index; block address/contents/contains_* have the half-open shape the "
+            "property states.",
+            "in-range content edits only (contents is a public attribute).", "4/C19"),
 }
 
 REASON_PENDING = "check not built yet (construction phase); planned, see DESIGN.md section 4"
